@@ -116,7 +116,7 @@ def gen_scenario(rng):
         c = rng.randrange(len(confs))
         via = rng.choice(['explicit', 'explicit', 'global', 'palette_class', 'palette_obj', 'custom_palette'])
         mode = rng.choice(['whole', 'whole', 'lines', 'lines_join', 'whole_then_lines', 'lines_twice', 'interleaved',
-                           'copy', 'concat', 'format', 'plain'])
+                           'copy', 'concat', 'format', 'plain', 'slice', 'fixed', 'compared'])
         if objects[o]['kind'] in ('rec', 'hdoc', 'ppwrap'):
             mode = 'whole'   # a formatted record is a plain CHText, help text is printed: no line iteration
         if objects[o]['kind'] == 'ppwrap':
